@@ -290,6 +290,7 @@ def c14(run):
         run.case(rq, True, law='numlaws-sample')
         if r != w:
             run.fail({'request': rq, 'expected': w, 'answer': r}, 'integer arithmetic below 2^53 is not exact (a NumLaws hypothesis of the theorems is false of this f64)')
+    check_queue_shapes(run)          # equality in both directions on arrays whose storage has wrapped around
     # --- build / knock
     bk = []
     vals = ['t', 'f', 'n'] + [progs.nenc(x) for x in [0.0, 1.0, -1.0, 2.0, 0.5, -0.5, 3.0, 10.0, 1e15, 2.0 ** 52, 0.25, 1234567.0,
@@ -657,6 +658,67 @@ def sized_programs():
         out.append('rock X with %s\nsay X\nsay X at %d\n' % (args, k - 1))
         out.append('let X%s be 5\nsay X%s\nsay X\n' % (' at 1' * k, ' at 1' * k))
     return out
+
+
+def queue_shapes(quick):
+    """(program, expected output lines): a queue is filled with a elements (one rock with a list, or a single rocks), rolled b
+    times, refilled with c, optionally grown by one index assignment at its end, and then observed in every way that walks
+    its storage: printed length, every element, join, equality in BOTH directions with an independently built array of the
+    same contents, a copy. Expected output is computed here from FIFO semantics (model-free). Sizes cover every
+    capacity step of a growable ring buffer (1..9, 15..17, 31..33)."""
+    out = []
+    sizes = [1, 2, 3, 4, 5, 7, 8, 9] if quick else [1, 2, 3, 4, 5, 6, 7, 8, 9, 15, 16, 17, 31, 32, 33]
+    for a in sizes:
+        for b in sorted(set([1, a // 2, a - 1, a]) - {0}):
+            if b > a:
+                continue
+            for c in sorted(set([0, 1, b - 1, b, b + 1]) - {-1}):
+                for one_rock in (True, False):
+                    for grow in (False, True):
+                        elems = ['e%d' % i for i in range(a)]
+                        src = ''
+                        if one_rock:
+                            src += 'rock qs with %s\n' % ', '.join('"%s"' % e for e in elems)
+                        else:
+                            src += ''.join('rock qs with "%s"\n' % e for e in elems)
+                        src += 'roll qs\n' * b
+                        cur = elems[b:]
+                        more = ['m%d' % i for i in range(c)]
+                        src += ''.join('rock qs with "%s"\n' % e for e in more)
+                        cur += more
+                        if grow:
+                            src += 'let qs at %d be "g"\n' % len(cur)
+                            cur.append('g')
+                        if not cur:
+                            continue
+                        src += 'rock ws with %s\n' % ', '.join('"%s"' % e for e in cur)
+                        exp = []
+                        src += 'say qs\n'; exp.append(str(len(cur)))
+                        for i, e in enumerate(cur):
+                            src += 'say qs at %d\n' % i; exp.append(e)
+                        src += 'say qs is ws\nsay ws is qs\nsay qs isnt ws\n'; exp += ['true', 'true', 'false']
+                        src += 'put "zz" into ws at %d\nsay qs is ws\nsay ws is qs\n' % (len(cur) - 1); exp += ['false', 'false']
+                        src += 'put qs into cs\nsay cs is qs\nsay qs is cs\n'; exp += ['true', 'true']
+                        src += 'join qs into js with "-"\nsay js\n'; exp.append('-'.join(cur))
+                        src += 'join qs\nsay qs\n'; exp.append(''.join(cur))
+                        out.append((src, exp))
+    return out
+
+
+def check_queue_shapes(run):
+    """queues whose storage has wrapped around (fill, roll, refill, grow) observed in every way that walks the storage"""
+    qs = queue_shapes(run.tier == 'quick')
+    qreqs = [run_req(src) for src, _ in qs]
+    qm, qim = run.tie(qreqs, proj=proj_run, functional=True, desc=lambda i: {'program': qs[i][0], 'section': 'queue shapes'})
+    for (src, exp), r in zip(qs, qim):
+        if r is None:
+            continue
+        c, det, out, _ = run_parts(r)
+        run.case(('queue', src), True, kind='queue-shape', outcome=c)
+        got = out.decode('utf-8', 'replace').split('\n')[:-1]
+        if c != 'ok' or got != exp:
+            run.fail({'program': src, 'printed': got, 'expected': exp, 'outcome': c + ' ' + det},
+                     'a queue that was filled, rolled and refilled does not hold / compare / join as its FIFO contents')
 
 
 def scale_runs(quick):
@@ -1177,7 +1239,7 @@ def c05(run):
                 'loops/ifs, block locals, pronoun reads, calls nested in arguments, error calls (wrong arity, non-function, unknown name, '
                 'leaked local); metamorphic oracles on the implementation: an unused extra parameter+argument changes nothing, wrapping '
                 'statements that bind no new name in `if true` changes nothing; EVERY function body of up to 2 (quick) / 3 (thorough) statements '
-                'over a 27-shape vocabulary x 9 observations, tied to the model; non-trivial = at least 2 calls executed; distinct by program text')
+                'over a 29-shape vocabulary x 9 observations, also with every name proper (a confusable family) / common, tied to the model; non-trivial = at least 2 calls executed; distinct by program text')
     cases = []
     for i in range(n):
         fg = Funcs(rng)
@@ -1232,6 +1294,20 @@ def c05(run):
         for body in itertools.product(SCOPE_BODY, repeat=k):
             for obs in SCOPE_OBS:
                 sc.append(SCOPE_PRE + 'ff takes pp\n' + ''.join(b + '\n' for b in body) + 'give back pp with 100\n\n' + SCOPE_CALL + obs + '\n')
+    # the same programs with every name replaced by a PROPER name (a confusable family: Jo Anna / Joan Na / Jo An Na ...) and by
+    # a COMMON name: each kind of name lives in its own table of the symbol table
+    import re as _re
+    base_n = len(sc)
+    for mapping in (SCOPE_PROPER, SCOPE_COMMON):
+        pat = _re.compile(r'\b(' + '|'.join(mapping) + r')\b', _re.I)
+
+        def ren(mo, mapping=mapping):
+            w = mo.group(0)
+            t = mapping[w.lower()]
+            return t.upper() if w.isupper() and len(w) > 1 else t
+        pick = range(base_n) if run.tier != 'quick' else rng.sample(range(base_n), min(base_n, 1200))
+        for i in pick:
+            sc.append(pat.sub(ren, sc[i]))
     sreqs = [run_req(t, steps=20000) for t in sc]
     sm, sim = run.tie(sreqs, proj=proj_run, functional=True, desc=lambda i: {'program': sc[i], 'section': 'bounded-exhaustive'})
     for t, r in zip(sc, sim):
@@ -1249,11 +1325,16 @@ SCOPE_BODY = ['put 10 into gg', 'put 11 into ll', 'put 12 into pp', 'say gg', 's
               'put helper taking 7 into hh', 'say helper taking pp', 'if pp is 5\nput 13 into bb\nsay bb\n', 'if pp is 5\nput 14 into gg\n',
               'say bb', 'if pp is greater than 0\nput pp minus 5 into qq\ngive back ff taking qq\n', 'while pp is greater than 0\nknock pp down\nput 15 into ww\nif pp is 2\ngive back ww\n\n',
               'say ww', 'give back gg', 'rock gg with pp', 'put pp into ll at 0', 'listen to ll', 'put ff into hh',
+              'while pp is greater than 3\nknock pp down\nrock ww with 1\nsay ww\n\n', 'until pp is less than 4\nknock pp down\nll takes zz\ngive back zz\n\nsay ll taking pp\n\n',
               # a name resolved, then SHADOWED under another letter case (variable / nested function), then resolved again
               'put 9 into HELPER', 'HeLPer takes zz\ngive back 77\n',
               'say helper taking 1\nput 9 into HELPER\nsay helper taking 1', 'say helper taking 1\nHelper takes zz\ngive back 77\n\nsay helper taking 1',
               'say gg\nput 8 into GG\nsay gg\nsay Gg', 'say Helper taking 1\nif pp is 5\nput 9 into helper\nsay Helper taking 1\n\nsay Helper taking 2']
 SCOPE_CALL = 'say ff taking 5\n'
+SCOPE_PROPER = {'gg': 'Jo Anna', 'hh': 'Joan Na', 'll': 'Joa Nna', 'pp': 'Tom Sawyer', 'bb': 'Mister Crowley', 'ww': 'Doctor Feelgood', 'qq': 'Billie Jean',
+                'zz': 'J Oanna', 'ff': 'Black Sabbath', 'helper': 'Blacks Abbath', 'mm': 'Tom Saw Yer'}
+SCOPE_COMMON = {'gg': 'the night', 'hh': 'my soul', 'll': 'your love', 'pp': 'a girl', 'bb': 'the nights', 'ww': 'my night', 'qq': 'our soul',
+                'zz': 'an angel', 'ff': 'the fire', 'helper': 'my fire', 'mm': 'the fires'}
 SCOPE_OBS = ['say gg\nsay hh', 'say ll', 'say pp', 'say bb', 'say it', 'say ww', 'say ff taking gg, hh', 'say hh taking 1', 'say HELPER taking 5']
 
 
@@ -1317,8 +1398,13 @@ ARRAY_OPS = ['rock xx', 'rock xx with 1', 'rock xx with 2, "s"', 'roll xx', 'rol
              'put 8 into xx at 2', 'put 9 into xx at "k"', 'put 6 into xx at 0 at 1', 'put xx into yy', 'put yy into xx',
              'put yy into xx at 1', 'put xx at 0 into dd', 'let xx at 0 be with 1', 'put 0 into xx', 'put "str" into xx',
              'put xx at "k" into dd', 'rock yy with xx', 'roll yy into xx', 'join xx', 'cut dd into xx', 'put xx at 1 into xx',
-             'put xx into xx at 0', 'build xx up', 'put 0 over 0 into xx at 0', 'say xx is yy']
-ARRAY_INIT = 'rock xx\nrock yy with 3\nput 1 into dd\n'
+             'put xx into xx at 0', 'build xx up', 'put 0 over 0 into xx at 0', 'say xx is yy',
+             # reads and writes whose SUBSCRIPT expression changes the array it subscripts (the array is read before / the
+             # place is resolved after the subscript is evaluated, as the statement order says)
+             'say xx at shifter taking 0', 'say xx at same taking roll xx', 'put xx at grower taking 1 into dd', 'put 5 into xx at shifter taking 1',
+             'let xx at grower taking 0 be with 1']
+ARRAY_INIT = ('shifter takes qq\nroll xx into junk\ngive back qq\n\ngrower takes qq\nrock xx with "g"\ngive back qq\n\nsame takes qq\ngive back qq\n\n'
+              'rock xx\nrock yy with 3\nput 1 into dd\n')
 ARRAY_SAFE = 'say "=="\nsay xx\nsay yy\nsay dd\nsay xx is yy\n'
 # observations that fail on a value that cannot be indexed: one per run, after the safe ones
 ARRAY_RISKY = ['say xx at 0', 'say xx at 1', 'say xx at 2', 'say xx at "k"', 'say yy at 0', 'say yy at 1', 'say yy at "k"',
@@ -1391,6 +1477,7 @@ def c06(run):
         if c in ('crash', 'hang'):
             run.fail({'program': h, 'answer': r[:200]}, 'array program crashes')
     run.extra['small_scope'] = {'operations': len(ARRAY_OPS), 'exhaustive_up_to_length': 3, 'histories': len(hist)}
+    check_queue_shapes(run)
     # every writing statement through a chain of 1..13 subscripts (fresh, over a number, over an array), arrays and
     # dictionaries of 8 ... 1025 entries, arrays nested 8 ... 300 deep
     sc = [(k, src) for k, nn, src in scale_runs(run.tier == 'quick') if k in ('subscript-depth', 'array-elements', 'array-nesting', 'dictionary-keys')]
@@ -1541,6 +1628,7 @@ def c07(run):
             run.fail({'program': src, 'printed': lines[:4]}, 'a mutation with an `into` destination changed its operand')
         if c == 'ok' and info['op'] == 'roundtrip' and lines[-2] != 'true':
             run.fail({'program': src, 'printed': lines[:6]}, 'cut then join does not restore the string')
+    check_queue_shapes(run)
 
 
 def mutation_program(rng, strs, delims):
